@@ -18,39 +18,50 @@ P12 = '{"panicbuf","deadline"}'
 ALL3 = '{"panicbuf","deadline","outclose"}'
 
 META = dict(
-    text="Contract + mechanism model + black-box stress: spec/MRContract.tla states, for a scenario (item count, workers, "
-         "what each mapper does: write 0-2 values / cancel(err) / cancel(nil) / panic / panic only after the call returned; "
-         "what the reducer does: read the pipe to its end or stop after j values, write 0-2 results, then return / panic / "
-         "cancel; generator normal or panicking after k items; context background / done before / done during), the SET "
-         "of results the statement allows (value, ErrReduceNoOutput, the cancel error or ErrCancelWithNil, "
-         "DeadlineExceeded, the re-raised panic; where causes race, the union) and the exactly-once obligations. "
-         "spec/MRPipeline.tla models lib/mr/mapreduce.go one channel / atomic / once operation per step (source, "
-         "collector, output, done, panicChan + CAS, pool tokens, WaitGroup, failed flag, the two sync.Once, the "
+    text="Contract + mechanism model + black-box stress + trace validation. spec/MRContract.tla states, for a scenario (item "
+         "count, workers, what each mapper does: write 0-2 values / cancel(err) / cancel(nil) / panic / panic only after "
+         "the call returned; what the reducer does: read the pipe to its end or stop after j values, write 0-2 results, "
+         "then return / panic / cancel; generator normal or panicking after k items; context background / done before / "
+         "done during), the SET of results the statement allows (value, ErrReduceNoOutput, the cancel error or "
+         "ErrCancelWithNil, DeadlineExceeded, the re-raised panic; where causes race, the union) and the exactly-once "
+         "obligations. spec/MRPipeline.tla models lib/mr/mapreduce.go one channel / atomic / once operation per step "
+         "(source, collector, output, done, panicChan + CAS, pool tokens, WaitGroup, failed flag, the two sync.Once, the "
          "guardedWriter check-then-send, all drain loops); TLC explores every interleaving of every scenario of the "
-         "configured families (<= 3 items, <= 2 workers) and checks: result in Outcomes, exactly-once, bounded "
-         "workers, every run comes to rest with every goroutine finished (no goroutine blocked for ever, the call "
-         "returns) - for the code as it is (where it shows the blocked states) and for the proposed repair. "
-         "TLC then enumerates the scenarios with their outcome sets as JSON; the Go driver acts each scenario out through "
-         "mr.MapReduce / MapReduceVoid / MapReduceChan / ForEach / Finish / FinishVoid with instrumented user "
-         "functions, repeatedly, under -race with GOMAXPROCS 1/2/16 and seeded random yields, and checks membership "
-         "of the result, the exactly-once multisets, the worker bound, that the call returns and that no goroutine "
-         "of the call is left once the generator function has returned (hangs and leaks are proven from a consistent "
-         "all-goroutine snapshot in which every goroutine of the call is blocked; stacks attached).",
+         "configured families (<= 3 items, <= 2 workers) and checks: result in Outcomes, exactly-once, bounded workers, "
+         "every run comes to rest with every goroutine finished (nothing blocked for ever, the call returns) - for the "
+         "code as it is (where TLC exhibits the blocked states) and for the three proposed repairs. TLC then enumerates "
+         "the scenarios with their outcome sets as JSON; the Go driver acts each scenario out through mr.MapReduce / "
+         "MapReduceVoid / MapReduceChan / ForEach / Finish / FinishVoid with instrumented user functions, repeatedly, "
+         "under -race with GOMAXPROCS 16/2/1 and seeded random yields, and checks membership of the result, the "
+         "exactly-once multisets, the worker bound, that the call returns and that no goroutine of the call is left once "
+         "the generator function has returned (hangs and leaks are proven from a stop-the-world goroutine snapshot in "
+         "which every goroutine of the call is blocked; stacks attached; race-detector reports are verdicts too). In a "
+         "recording pass the user functions log their events with a global sequence number and TLC validates every "
+         "history against the contract-level acceptor spec/MRTrace.tla (mapped only after generated and at most once, "
+         "received only after written and at most once, worker bound at every point, the first cancel wins, "
+         "DeadlineExceeded only after the context was cancelled, everything mapped/delivered before a reducer that read "
+         "the pipe to its end makes the call return).",
     note="Trusted: TLC, the Go race detector and runtime.Stack's consistent snapshot, the driver's classification of "
-         "results. Schedules on the real code are the ones the Go scheduler produced (seeded yields, three GOMAXPROCS "
-         "settings), not all schedules; all interleavings are covered only on the model (n <= 3, workers <= 2, one "
-         "step per channel operation, goroutine start-up order free). The contract is a set wherever the statement "
-         "lets causes race; 'first cancel wins' is checked only as 'the error of one of the cancels'; exactly-once and "
-         "the worker bound are judged only in scenarios without any cancel / panic / context ('without cancellation'). "
-         "Not modelled: user functions that block for ever, a MapReduceChan source that is never closed, more than "
-         "one panic value per goroutine, nested MapReduce calls. Part (3) of the design (TLC validation of recorded "
-         "user-level event traces against MRPipeline) is not built. Model-level leads that the stress driver reproduces "
-         "only rarely on the real code (they do not depend on the repair): runtime error 'send on closed channel' "
-         "re-raised in the caller when finish() closes output between the reducer's guardedWriter check and its send "
-         "(key C07:result:send-on-closed-output), and ErrReduceNoOutput/nil instead of DeadlineExceeded when the "
-         "select takes the closed output although the context is done (key C07:result:no-output-instead-of-deadline).",
+         "results, the tracer's global sequence number. Schedules on the real code are the ones the Go scheduler "
+         "produced (seeded yields, three GOMAXPROCS settings, 2 executions per scenario and setting in the quick tier, 8 "
+         "in the thorough tier - not the 50 of the design), not all schedules; all interleavings are covered only on the "
+         "model (n <= 3, workers <= 2, one step per channel operation, goroutine start-up order free). The contract is a "
+         "set wherever the statement lets causes race; exactly-once and the worker bound are judged only in scenarios "
+         "without any cancel / panic / context ('without cancellation'). Not modelled: user functions that block for "
+         "ever, a MapReduceChan source that is never closed, more than two reducer writes, nested MapReduce calls. The "
+         "design's MRTrace (MRPipeline with silent channel steps) is replaced by the cheaper contract-level acceptor. On "
+         "a tree with a defect, scenarios of a signature that already failed VERIF_FAILCAP times in a driver process are "
+         "skipped (nothing is skipped on a conforming tree). Findings on the unchanged tree, all reproduced on the real "
+         "code: blocking onceChan.write (mapreduce.go:352) leaves goroutines for ever when a panic follows a return "
+         "through cancel / context / result (keys C07:leak:panic-after-{cancel,ctx,result,panic}-return) and makes the "
+         "call hang when the panic comes after the caller accepted the reducer's value or while the caller itself runs "
+         "cancel (keys C07:hang:panic-after-output-accepted, C07:hang:panic-while-caller-cancels); finish() closes "
+         "`output` while the reducer may be sending (race detector report C07:data-race:guardedWriter.Write+"
+         "mapReduceWithPanicChan.func2.1, rarely visible as C07:result:send-on-closed-output); with a done context the "
+         "select may return ErrReduceNoOutput/nil (C07:result:no-output-instead-of-deadline).",
     technique="TLA+ contract (outcome sets) + TLC model checking of the channel-level mechanism model + TLC-enumerated "
-              "scenarios replayed black-box on the real entry points under -race with goroutine-snapshot leak/hang proofs",
+              "scenarios replayed black-box on the real entry points under -race with goroutine-snapshot leak/hang proofs "
+              "+ TLC validation of recorded user-level histories",
     design="4/C07")
 
 FINISH = dict(rule="cases = complete TLC enumeration of the scenario families of MRContract.tla (every function from items "
@@ -226,7 +237,8 @@ def run(ctx):
     spath, _ = ctx.write_cases("cases-trace.ndjson", sample)
     tpath = os.path.join(ctx.build, "trace.ndjson")
     _, tbad = ctx.replay(PKG, OVERLAY, RUN, spath, label="rec", shards=1, binp=binp, gomaxprocs=4, timeout=900,
-                         env=dict(VERIF_REPS=1, VERIF_FAILCAP=1, VERIF_TRACE=tpath, GORACE="exitcode=0"))
+                         env=dict(VERIF_REPS=1, VERIF_FAILCAP=1, VERIF_TRACE=tpath, VERIF_RACELOG=os.path.join(ctx.build, "race-rec"),
+                                  GORACE="exitcode=0 log_path=" + os.path.join(ctx.build, "race-rec")))
     bad_all += tbad
     if os.path.exists(tpath) and os.path.getsize(tpath) > 0:
         def describe(segment, first_bad):
